@@ -192,7 +192,8 @@ def run(desc, ctx):
         return None
 
     try:
-        _, abort, s = harness.sched_case(fn, seed=desc['seed'], policy=desc['sched'], horizon=3000.0)
+        _, abort, s = harness.sched_case(fn, seed=desc['seed'], policy=desc['sched'], line_p=harness.line_p_for(desc['seed'], 8, 0.05), horizon=3000.0, max_steps=12_000_000)
+        ctx.count('mon.statement_level_preemption_points', s.line_points)
     finally:
         if cache_dir:
             import shutil
